@@ -14,6 +14,8 @@ from .lin import Lin, lin_from_key, ATOM_LO, ATOM_HI, ATOM_MASK
 
 _F = None
 _CFG = None
+_TRUSTED = frozenset()
+_ROOTSET = frozenset()
 
 
 def inv_targets(F):
@@ -46,6 +48,8 @@ def _work(args):
         b = F.bodies[p]
         I = Interp(F, M, inv, max_depth=depth, budget=budget)
         I.inv_targets = targets
+        I.trusted_ctx = _TRUSTED
+        I.rootset = _ROOTSET
         err = None
         t0 = time.time()
         try:
@@ -97,9 +101,10 @@ def _work(args):
     return out
 
 
-def run_pass(F, roots, inv, record_inv, depth=2, budget=20000, jobs=None):
-    global _F
+def run_pass(F, roots, inv, record_inv, depth=2, budget=20000, jobs=None, rootset=None):
+    global _F, _ROOTSET
     _F = F
+    _ROOTSET = frozenset(rootset if rootset is not None else roots)
     jobs = jobs or min(16, os.cpu_count() or 4)
     roots = list(roots)
     # chunk: interleave to balance
@@ -234,8 +239,12 @@ def select_roots(F):
     return [b["path"] for b in F.body_list if is_external_root(b)]
 
 
-def analyze_crate(F, depth=2, budget=20000, jobs=None, max_rounds=6, log=None):
+def analyze_crate(F, depth=2, budget=20000, jobs=None, max_rounds=5, log=None, axioms=None):
     """full E1 run: returns dict(inv=..., results=[...], roots=[...])"""
+    global _TRUSTED
+    if axioms is not None:
+        from .axioms import trusted_ctx_set
+        _TRUSTED = frozenset(trusted_ctx_set(axioms))
     def say(*a):
         if log:
             log(" ".join(str(x) for x in a))
@@ -248,12 +257,12 @@ def analyze_crate(F, depth=2, budget=20000, jobs=None, max_rounds=6, log=None):
     stable = False
     for rnd in range(max_rounds):
         use = roots if iroots is None else iroots
-        results = run_pass(F, use, inv, True, depth, budget, jobs)
+        results = run_pass(F, use, inv, True, depth, budget, jobs, rootset=roots)
         if iroots is None:
             roots = extend_roots(F, roots, results)
             extra = [r for r in roots if r not in set(use)]
             if extra:
-                results.extend(run_pass(F, extra, inv, True, depth, budget, jobs))
+                results.extend(run_pass(F, extra, inv, True, depth, budget, jobs, rootset=roots))
             iroots = interesting_roots(F, roots, targets)
         newinv = build_invariants(results, inv, targets)
         if log:
@@ -269,6 +278,11 @@ def analyze_crate(F, depth=2, budget=20000, jobs=None, max_rounds=6, log=None):
         if sa == sb:
             stable = True
             break
+        if rnd >= 3:
+            # invariants that still change after three rounds are given up (TOP) so that the rest settles
+            for sp in targets:
+                if sa[sp] != sb[sp]:
+                    newinv[sp] = {"disjuncts": [], "top": True}
         if log and rnd >= 1:
             from .lin import show_lin
             for sp in targets:
@@ -281,7 +295,7 @@ def analyze_crate(F, depth=2, budget=20000, jobs=None, max_rounds=6, log=None):
     if not stable:
         say("invariants did not stabilise; dropping those that still change")
         for _ in range(3):
-            results = run_pass(F, iroots, inv, True, depth, budget, jobs)
+            results = run_pass(F, iroots, inv, True, depth, budget, jobs, rootset=roots)
             newinv = build_invariants(results, inv, targets)
             sa, sb = inv_signature(inv), inv_signature(newinv)
             changed = [sp for sp in targets if sa[sp] != sb[sp]]
@@ -293,12 +307,12 @@ def analyze_crate(F, depth=2, budget=20000, jobs=None, max_rounds=6, log=None):
     never = [sp for sp, v in inv.items() if v.get("bottom")]
     for sp in never:
         inv[sp] = {"disjuncts": [], "top": True}
-    results = run_pass(F, roots, inv, False, depth, budget, jobs)
+    results = run_pass(F, roots, inv, False, depth, budget, jobs, rootset=roots)
     for _ in range(4):
         nr = extend_roots(F, roots, results)
         if len(nr) == len(roots):
             break
-        extra = run_pass(F, [r for r in nr if r not in set(roots)], inv, False, depth, budget, jobs)
+        extra = run_pass(F, [r for r in nr if r not in set(roots)], inv, False, depth, budget, jobs, rootset=nr)
         results.extend(extra)
         roots = nr
     say("final pass done t=%.1f" % (time.time() - t0))
@@ -368,7 +382,8 @@ def main():
     path = sys.argv[1]
     F = Facts(path)
     t0 = time.time()
-    res = analyze_crate(F, log=print)
+    from .axioms import load_axioms
+    res = analyze_crate(F, log=print, axioms=load_axioms())
     sites = aggregate(F, res["results"], res["roots"])
     tot = collections.Counter()
     bad = collections.Counter()
